@@ -430,5 +430,67 @@ impl MainEvent {
     }
 }
 
+// Verification hooks (read-only accessors, a plain constructor and re-exports of crate-private
+// functions; compiled only with `--cfg alpha_g_verif`).
+#[cfg(alpha_g_verif)]
+impl MainEvent {
+    #[allow(clippy::type_complexity)]
+    pub fn verif_signals(
+        &self,
+    ) -> (
+        &[Option<Vec<f64>>; TPC_ANODE_WIRES],
+        &[[Option<Vec<f64>>; TPC_PAD_ROWS]; TPC_PAD_COLUMNS],
+    ) {
+        (&self.wire_signals, &self.pad_signals)
+    }
+    pub fn verif_from_signals(
+        wire_signals: [Option<Vec<f64>>; TPC_ANODE_WIRES],
+        pad_signals: [[Option<Vec<f64>>; TPC_PAD_ROWS]; TPC_PAD_COLUMNS],
+        trigger_timestamp: u32,
+    ) -> Self {
+        Self {
+            wire_signals,
+            pad_signals,
+            trigger_timestamp,
+        }
+    }
+}
+#[cfg(alpha_g_verif)]
+pub mod verif {
+    use alpha_g_detector::alpha16::aw_map::TpcWirePosition;
+    use alpha_g_detector::padwing::map::TpcPadPosition;
+
+    // Calibration lookups (`None` when the run number or element has no calibration).
+    pub fn wire_baseline(run_number: u32, wire: TpcWirePosition) -> Option<i16> {
+        crate::calibration::wires::baseline::try_wire_baseline(run_number, wire).ok()
+    }
+    pub fn wire_gain(run_number: u32, wire: TpcWirePosition) -> Option<f64> {
+        crate::calibration::wires::gain::try_wire_gain(run_number, wire).ok()
+    }
+    pub fn wire_delay(run_number: u32) -> Option<usize> {
+        crate::calibration::wires::delay::try_wire_delay(run_number).ok()
+    }
+    pub fn pad_baseline(run_number: u32, pad: TpcPadPosition) -> Option<i16> {
+        crate::calibration::pads::baseline::try_pad_baseline(run_number, pad).ok()
+    }
+    pub fn pad_gain(run_number: u32, pad: TpcPadPosition) -> Option<f64> {
+        crate::calibration::pads::gain::try_pad_gain(run_number, pad).ok()
+    }
+    pub fn pad_delay(run_number: u32) -> Option<usize> {
+        crate::calibration::pads::delay::try_pad_delay(run_number).ok()
+    }
+    pub use crate::deconvolution::pads::{verif_pad_deconvolution, verif_pad_response};
+    pub use crate::deconvolution::wires::{
+        verif_contiguous_ranges, verif_neighbor_factors, verif_wire_range_deconvolution,
+        verif_wire_response,
+    };
+    pub use crate::deconvolution::{verif_ls_deconvolution, verif_nn_greedy_deconvolution};
+    pub use crate::drift::verif_drift_tables;
+    pub use crate::matching::{
+        verif_match_column_inputs, verif_pad_column_to_wires, verif_wire_to_pad_column,
+    };
+    pub use crate::reconstruction::verif as reconstruction;
+}
+
 #[cfg(test)]
 mod tests;
